@@ -1,6 +1,6 @@
 (* Proofs/EditWFText.v — property C08, text half: every edit operation preserves Spec/WF.v under a
-   decidable side condition on (operation, tree); histories; the print/parse round trip of edited
-   documents as a corollary of the WF backbone (taken as a Section hypothesis).
+   decidable side condition on (operation, tree); histories.  (The print/parse round trip of edited
+   documents, closed against the WF backbone, is Proofs/EditTextClose.v.)
 
    WF root = t_dotted root = false /\ tbl_wf true root /\ tbl_lim 0 0 root /\ order_ok root.
      * `t_dotted root = false` and `tbl_wf true root`: proved per operation from the node lemmas of
@@ -207,27 +207,11 @@ Qed.
 (* ==================================================================================== *)
 (** * The text half of C08 as a corollary of the WF backbone *)
 
-Section RoundTrip.
-  (* eng-c14's theorem (Spec/WF.v backbone): a well-formed tree prints as a text that parses back to
-     its own content.  Taken as a hypothesis here; the coordinator closes the section against it. *)
-  Hypothesis WF_print_parse : forall t, WF t ->
-    exists d, parse_document (display_document t REmpty) = POk d /\ abs (doc_root d) = abs t.
-
-  Theorem text_roundtrip : forall ops t t',
-    WF t -> apply_seq ops t = Some t' -> history_side ops t = true ->
-    exists d, parse_document (display_document t' REmpty) = POk d /\ abs (doc_root d) = abs t'.
-  Proof. intros ops t t' Hw H Hs. apply WF_print_parse. exact (history_WF ops t t' Hw H Hs). Qed.
-
-  (* ... and that content is what the reference says (C08_history_content_all) *)
-  Theorem text_roundtrip_content : forall ops t t',
-    WF t -> apply_seq ops t = Some t' -> history_side ops t = true ->
-    exists d, parse_document (display_document t' REmpty) = POk d
-              /\ abs (doc_root d) = spec_apply_all ops (abs t).
-  Proof.
-    intros ops t t' Hw H Hs. destruct (text_roundtrip ops t t' Hw H Hs) as (d & Hp & Ha).
-    exists d. split; [exact Hp|]. rewrite Ha. exact (history_content_all ops t t' H).
-  Qed.
-End RoundTrip.
+(* Closed in Proofs/EditTextClose.v against the backbone's `WF_print_parse` (Proofs/WFPrintTop.v):
+   the printed text of the edited tree parses back to the DATA of the edited tree, every standard
+   table listed key/value lines first (`text_data`).  The conditional form that stood here took
+   `abs (doc_root d) = abs t` as the backbone's conclusion; that equation is false for well-formed
+   trees that store a value behind a sub-table (Props/C08.v ex_roundtrip_exact_refuted). *)
 
 (* ==================================================================================== *)
 (** * Which operations cannot touch the order of the sections *)
